@@ -163,6 +163,7 @@ def gen_lock(rng, idx, tier, force=None):
     elif seg == "restart":
         k = rng.randint(1, T - 3)
         c["Ks"] = [k - k % n]           # resumed at a step at which the variable is updated
+        c["run0"] = rng.random() < 0.5  # the resumed process computes its first step twice ("run 0", then "run N")
     elif seg == "restart_between":
         k = rng.randint(n, T - 3 * n)
         k -= k % n
@@ -254,6 +255,9 @@ def scenarios(case, wd):
         for t in range(K, T + 1):
             s1 += pos(case, case["hist"][t]) + "step\ngauss\n"
             p1.append((t, t == K))
+            if t == K and case.get("run0"):
+                s1 += "newrun\nstep\ngauss\n"
+                p1.append((t, True))
         return [(s0, p0), (s1, p1)]
     s, p = header(case, 0, wd), []
     for t in range(T + 1):
@@ -330,6 +334,8 @@ def bias_force(case, b, x_rep, xa, p):
         return -(b["K"] / (w * w)) * p.mi(x_rep - b["c"])
     if b["kind"] == "walls":
         a = xa if b["bypass"] else x_rep
+        if case["periodic"] and abs(p.mi(a - b["lw"])) == abs(p.mi(a - b["uw"])):
+            return None         # exactly half-way between the two walls of a periodic variable: either wall is right
         if a > b["uw"]:
             return -(b["K"] / (w * w)) * (a - b["uw"])
         if a < b["lw"]:
